@@ -9,3 +9,4 @@ def prop(pid, level, technique, text, explanation, assumptions, note):
 
 prop("C01", "other", "static sibling-agreement analysis (THIR wire-shape regex containment)",
      "x", "x", ["x"], "x")
+prop("C02", "other", "x", "x", "x", ["x"], "x")
